@@ -5,7 +5,7 @@ from .common import *
 
 META = {
     "level": "other",
-    "explanation": "Confinement and offset consistency of the six delimiting classes (Prefixed, FixedSized, OffsettedEnd, NullTerminated, NullStripped, ProcessXor): (R1) on every successful parse path the inner construct runs on a substream created in this method from data read from the outer stream, and nothing touches the outer stream after that read-out, so the outer position is fixed before the inner construct runs, whatever it consumes; (R2) the outer exit position is what the delimiter's contract says -- Prefixed: after the length field plus the announced length (minus the field's own size iff includelength); FixedSized: entry + length; OffsettedEnd: end + endoffset, with the tell/seek-end/tell/seek-back probe restoring the current position; NullTerminated: reads are exactly len(term) wide, the terminator is part of the region data iff `include`, the stream steps back by len(term) iff not `consume`, EOF is re-raised iff `require`; (R3) the substream is a BytesIOWithOffsets whose offset argument is a tell of the outer stream taken where the region's first byte lies, BytesIOWithOffsets.__init__ stores that offset, tell() adds it and absolute seek() subtracts the same attribute (relative seeks are passed through) and returns tell(). (R4) NullStripped hands the inner construct the region minus trailing bytes that were compared equal to the pad on that path: rstrip only for a one-byte pad, and for longer pads every shortening step of the end index (partial tail unit, whole units in the loop) is justified by an equality guard between exactly the dropped slice and the pad (prefix). (R5) the generated code of the delimiting classes agrees with the interpreter methods (shared with C04.R3).",
+    "explanation": "Confinement and offset consistency of the six delimiting classes (Prefixed, FixedSized, OffsettedEnd, NullTerminated, NullStripped, ProcessXor): (R1) on every successful parse path the inner construct runs on a substream created in this method from data read from the outer stream, and nothing touches the outer stream after that read-out, so the outer position is fixed before the inner construct runs, whatever it consumes; (R2) the outer exit position is what the delimiter's contract says -- Prefixed: after the length field plus the announced length (minus the field's own size iff includelength); FixedSized: entry + length; OffsettedEnd: end + endoffset, with the tell/seek-end/tell/seek-back probe restoring the current position; NullTerminated: reads are exactly len(term) wide, the terminator is part of the region data iff `include`, the stream steps back by len(term) iff not `consume`, EOF is re-raised iff `require`; (R3) the substream is a BytesIOWithOffsets whose offset argument is a tell of the outer stream taken where the region's first byte lies, BytesIOWithOffsets.__init__ stores that offset, tell() adds it and absolute seek() subtracts the same attribute (relative seeks are passed through) and returns tell(). (R4) NullStripped hands the inner construct the region minus trailing bytes that were compared equal to the pad on that path: rstrip only for a one-byte pad, and for longer pads every shortening step of the end index (partial tail unit, whole units in the loop) is justified by an equality guard between exactly the dropped slice and the pad (prefix). (R5) the generated code of the delimiting classes agrees with the interpreter methods (shared with C04.R3). (R6) Lazy's skip over a delimited region ends at the region end (shared with C16.R1) and ProcessXor/ProcessRotateLeft hand on as many bytes as they were given (shared with C15.R7).",
     "undecided": "behaviour for overlong regions beyond the stream_read length check; Transformed/Restreamed/ProcessRotateLeft/Tunnel substreams are plain by documentation ('do NOT use seeking/telling classes inside').",
     "trusted_base": ["python ast (3.12)", "sa.summ summariser", "sa.pos position algebra", "io.BytesIO semantics"],
     "assumptions": ["Tell/RawCopy/Pointer/Lazy use only stream_tell/stream_seek (C06.R1), hence see BytesIOWithOffsets.tell/seek"],
@@ -84,6 +84,43 @@ def null_stripped(ctx, fi, paths, rule="C08.R4"):
         ctx.ob(rule, fi, ok, "the strip loop continues only while the unit before the end index equals the pad", key="loop condition")
         n += 1
     return n
+
+
+def substream_class_checks(ctx, rule):
+    """BytesIOWithOffsets: stores the offset, tell() adds it, absolute seek() subtracts it, relative seeks pass through, from_reading tells first."""
+    M = ctx.model
+    # ---- BytesIOWithOffsets itself
+    off = N.selfattr("parent_stream_offset")
+    fi, paths = own_method_paths(ctx, "BytesIOWithOffsets", "__init__")
+    w = [e for p in paths for e in p.events if e.kind == "SELFWRITE" and e["attr"] == "parent_stream_offset"]
+    ctx.ob(rule, fi, len(paths) == 1 and len(w) == 1 and w[0]["value"] == ("param", "offset"), "__init__ stores the offset argument as parent_stream_offset", key="init stores offset")
+    sup = [e for p in paths for e in p.events if e.kind == "SUPERIO" and e["method"] == "__init__"]
+    ctx.ob(rule, fi, len(sup) == 1 and sup[0]["args"] == (("param", "contents"),), "__init__ initialises the BytesIO with the region's contents", key="init contents")
+    fi, paths = own_method_paths(ctx, "BytesIOWithOffsets", "tell")
+    inner = ("call", ("attr", ("call", ("free", "super"), (), ()), "tell"), (), ())
+    ctx.ob(rule, fi, len(paths) == 1 and paths[0].retval == N.mk_add(inner, off), "tell() is the inner position plus parent_stream_offset", key="tell")
+    fi, paths = own_method_paths(ctx, "BytesIOWithOffsets", "seek")
+    absp = [p for p in paths if any(c[0] == "cmp" and c[1] == "==" and ("param", "whence") in c[2:] for c in p.guards())]
+    relp = [p for p in paths if any(c[0] == "cmp" and c[1] == "!=" and ("param", "whence") in c[2:] for c in p.guards())]
+    good = len(absp) == 1 and len(relp) == 1
+    if good:
+        a = [e for e in absp[0].events if e.kind == "SUPERIO" and e["method"] == "seek"]
+        r = [e for e in relp[0].events if e.kind == "SUPERIO" and e["method"] == "seek"]
+        good = len(a) == 1 and a[0]["args"] == (N.mk_add(("param", "offset"), off, -1),) and len(r) == 1 and r[0]["args"] == (("param", "offset"), ("param", "whence"))
+        setc = [c for c in absp[0].guards() if c[0] == "cmp"][0]
+        good = good and ("attr", ("free", "io"), "SEEK_SET") in setc[2:]
+    ctx.ob(rule, fi, good, "absolute seek() subtracts the same parent_stream_offset; relative seeks are passed through unchanged", key="seek")
+    ctx.ob(rule, fi, all(p.retval == N.mk_add(inner, off) for p in paths), "seek() returns the absolute position (tell())", key="seek returns tell")
+    fi = M.resolve("BytesIOWithOffsets", "from_reading")
+    paths = paths_of(ctx, fi)
+    ok = len(paths) == 1
+    if ok:
+        t = Trace(paths[0], STREAM)
+        r = paths[0].retval
+        ok = r is not None and r[0] == "newstream" and r[1] == "BytesIOWithOffsets" and len(r[3]) == 3 and r[3][1] == STREAM and r[3][0][0] == "read" \
+            and r[3][0][2] == ("param", "length") and t.val(r[3][2]) == P0(STREAM) and r[3][2][0] == "tell"
+    ctx.ob(rule, fi, ok, "from_reading tells first, then reads `length` bytes, and wraps them with the offset told before the read", key="from_reading")
+
 
 
 def run(ctx):
@@ -173,38 +210,22 @@ def run(ctx):
     from . import C04
     C04.shared_obligations(ctx, "C08.R5", {"Prefixed", "FixedSized", "NullTerminated", "NullStripped", "OffsettedEnd", "ProcessXor"})
     ctx.floor("C08.R5", 4)
+    # a region wrapped in Lazy: the skip ends exactly at the region end whatever the size probe read (shared with C16.R1);
+    # ProcessXor hands the inner construct the whole region: the transform keeps the byte count (shared with C15.R7)
+    from ..core import Ctx as _Ctx
+    from . import C16, C15
+    sub = _Ctx("C16", ctx.tier, ctx.root, model=ctx.model)
+    sub._summ = summariser(ctx)
+    C16.run(sub)
+    for e in sub.errors:
+        ctx.error("shared C16 rules: " + e)
+    for o in sub.obligations:
+        if o.rule == "C16.R1":
+            ctx.ob("C08.R6", o.where, o.ok, o.what, key=o.key, loc=o.loc, detail=o.detail)
+    C15.length_preserving(ctx, "C08.R6")
+    ctx.floor("C08.R6", 8)
 
-    # ---- BytesIOWithOffsets itself
-    off = N.selfattr("parent_stream_offset")
-    fi, paths = own_method_paths(ctx, "BytesIOWithOffsets", "__init__")
-    w = [e for p in paths for e in p.events if e.kind == "SELFWRITE" and e["attr"] == "parent_stream_offset"]
-    ctx.ob("C08.R3", fi, len(paths) == 1 and len(w) == 1 and w[0]["value"] == ("param", "offset"), "__init__ stores the offset argument as parent_stream_offset", key="init stores offset")
-    sup = [e for p in paths for e in p.events if e.kind == "SUPERIO" and e["method"] == "__init__"]
-    ctx.ob("C08.R3", fi, len(sup) == 1 and sup[0]["args"] == (("param", "contents"),), "__init__ initialises the BytesIO with the region's contents", key="init contents")
-    fi, paths = own_method_paths(ctx, "BytesIOWithOffsets", "tell")
-    inner = ("call", ("attr", ("call", ("free", "super"), (), ()), "tell"), (), ())
-    ctx.ob("C08.R3", fi, len(paths) == 1 and paths[0].retval == N.mk_add(inner, off), "tell() is the inner position plus parent_stream_offset", key="tell")
-    fi, paths = own_method_paths(ctx, "BytesIOWithOffsets", "seek")
-    absp = [p for p in paths if any(c[0] == "cmp" and c[1] == "==" and ("param", "whence") in c[2:] for c in p.guards())]
-    relp = [p for p in paths if any(c[0] == "cmp" and c[1] == "!=" and ("param", "whence") in c[2:] for c in p.guards())]
-    good = len(absp) == 1 and len(relp) == 1
-    if good:
-        a = [e for e in absp[0].events if e.kind == "SUPERIO" and e["method"] == "seek"]
-        r = [e for e in relp[0].events if e.kind == "SUPERIO" and e["method"] == "seek"]
-        good = len(a) == 1 and a[0]["args"] == (N.mk_add(("param", "offset"), off, -1),) and len(r) == 1 and r[0]["args"] == (("param", "offset"), ("param", "whence"))
-        setc = [c for c in absp[0].guards() if c[0] == "cmp"][0]
-        good = good and ("attr", ("free", "io"), "SEEK_SET") in setc[2:]
-    ctx.ob("C08.R3", fi, good, "absolute seek() subtracts the same parent_stream_offset; relative seeks are passed through unchanged", key="seek")
-    ctx.ob("C08.R3", fi, all(p.retval == N.mk_add(inner, off) for p in paths), "seek() returns the absolute position (tell())", key="seek returns tell")
-    fi = M.resolve("BytesIOWithOffsets", "from_reading")
-    paths = paths_of(ctx, fi)
-    ok = len(paths) == 1
-    if ok:
-        t = Trace(paths[0], STREAM)
-        r = paths[0].retval
-        ok = r is not None and r[0] == "newstream" and r[1] == "BytesIOWithOffsets" and len(r[3]) == 3 and r[3][1] == STREAM and r[3][0][0] == "read" \
-            and r[3][0][2] == ("param", "length") and t.val(r[3][2]) == P0(STREAM) and r[3][2][0] == "tell"
-    ctx.ob("C08.R3", fi, ok, "from_reading tells first, then reads `length` bytes, and wraps them with the offset told before the read", key="from_reading")
+    substream_class_checks(ctx, "C08.R3")
 
     # positive control: offset taken after the read
     ctl = control_model(
